@@ -9,7 +9,7 @@ IDLE, OPEN, BUSY, CLOSED = 1, 2, 3, 4
 class LBCheck(BaseCheck):
   FOCUS = ()          # violation-kind prefixes that belong to this property
   KINDS = ('heap', 'aperture')
-  QUICK_CASES = 400
+  QUICK_CASES = 1200
   THOROUGH_CASES = 20000
   QUICK_WALL = 45
   THOROUGH_WALL = 420
